@@ -322,8 +322,8 @@ func structExec(c Case) Event {
 var structActs = []string{"force", "force", "force2d", "reverse", "swapxy", "asmulti", "mkgc", "mkgc1", "mkmulti", "mkpoly", "viactor", "geojson", "snap0", "densify", "wkb", "wkt", "forcecw", "forceccw"}
 
 func structGen(r *rand.Rand, n int, tier string, emit func(Case)) {
-	for i := 0; i < n; i++ {
-		tg := &treeGen{r: r, finite: true, simple: true, sliver: r.Intn(6) == 0}
+	for i := 0; i < n+bigExtra(n); i++ { // large sizes come last
+		tg := &treeGen{r: r, finite: true, simple: true, sliver: r.Intn(6) == 0, big: i >= n}
 		start := tg.tree(0, ctypes[r.Intn(4)], "")
 		cur := fmt.Sprint(start["t"])
 		steps := []interface{}{}
